@@ -162,8 +162,10 @@ def t_set_boundaries(E, P, k, a, bnew):
     stop = E.call(getattr, b, 'stop').value
     length = E.call(getattr, b, 'length').value
     want = (bnew - a) % RING
-    E.prove(start == a, 'head pointer reads back the value poked')
-    E.prove(stop == bnew, 'tail pointer reads back the value poked')
+    # pointers outside the ring (POKE 1050, v with v < 30 or v > 60) wrap around
+    a, bnew = a % RING, bnew % RING
+    E.prove(start == a, 'head pointer reads back the value poked (modulo the ring)')
+    E.prove(stop == bnew, 'tail pointer reads back the value poked (modulo the ring)')
     E.prove(length == want, 'number of waiting keys is (tail - head) mod 16')
     after = _queue(b)
     E.prove(len(after) == want, 'exactly the keys between head and tail wait')
@@ -284,6 +286,9 @@ TASKS = [
     Task('KeyboardBuffer.ring_set_boundaries (all head/tail pairs)', t_set_boundaries,
          cases=[{'P': P, 'k': k, 'a': a, 'bnew': bn} for P, k in ((16, 0), (21, 3), (35, 15), (47, 9))
                 for a in range(16) for bn in range(16)]),
+    Task('KeyboardBuffer.ring_set_boundaries (pointers outside the ring)', t_set_boundaries,
+         cases=[{'P': P, 'k': k, 'a': a, 'bnew': bn} for P, k in ((16, 0), (21, 3), (47, 9))
+                for a in (-15, -1, 16, 17, 112) for bn in (-15, -1, 0, 5, 16, 112)]),
 ]
 
 ASSUMPTIONS = [
